@@ -12,6 +12,7 @@ from bpsa.normal import canon
 from bpsa.terms import walk, short, TERM_IDX, T
 from . import roles as R, msm, weights
 from .C03 import result_local
+from .common import variants_under
 
 LEVEL_TEXT = ('Static analysis (sibling-table agreement of nonce-derivation call sites, order-preservation of the iterators that carry '
               'per-component data, control dependence of the result pushes). Decides that prover and recoverer derive the same nonces with the '
@@ -162,8 +163,8 @@ def run(ctx):
                 conds = [(canon(c), arms) for (sw, c, arms, tg) in pcs]
                 seed_some = any(c == 'discr(each(p2).seed_nonce)' and arms == ('1',) for c, arms in conds)
                 act_dep = [(c, arms) for c, arms in conds if 'p%d' % act in c]
-                not_verify_only = any(c == 'discr(p%d)' % act and '0' not in arms for c, arms in act_dep) or \
-                    any('VerifyOnly' in c and ((' Ne ' in c and arms == ('otherwise',)) or (' Eq ' in c and arms == ('0',))) for c, arms in act_dep)
+                vset, unknown = variants_under(ctx, v, pcs, act)
+                not_verify_only = vset is not None and not unknown and 'VerifyOnly' not in vset
                 key = 'R-C09-3/push@%s' % ('some' if is_some else 'none-%d' % dbb)
                 if is_some:
                     rep.check(seed_some and not_verify_only, 'R-C09-3', key, 'Some(mask) is pushed only when the statement has a seed and the action is not VerifyOnly',
